@@ -723,7 +723,8 @@ def run(ctx):
         "where the path is not below a file or link of the directory, and for unstage where neither HEAD nor the index has a directory at the path; reset --hard where no untracked file is in the way; "
         "branch switches from a state without staged or unstaged changes",
         "stash push / pop (porcelain.stash_push/stash_pop and Stash.push/pop; pop restores the index as `git stash pop --index`, which is what phase 0 compares with) are modelled for one stash "
-        "entry, popped on the HEAD it was made on with the tracked paths clean, where no tracked path was removed from the index or the directory and no file/directory conflict is involved; "
+        "entry, popped on the HEAD it was made on with the tracked paths clean, where no tracked path was removed from the index or the directory, no path with a staged change is back at its HEAD state in the directory, no mode-only (chmod) change is involved "
+        "(there Stash.push / pop do not reproduce what git does -- index entry not reset, mode not restored -- while status stays exact, so it is outside this property) and no file/directory conflict is involved; "
         "the harness waits 20 ms before a pop so that files written by pop never share a time stamp with those written by push (racy-git, above)",
         "clauses EditEffect (unstage / rm --cached / commit / reset --mixed leave the state the specification's action leads to) and StageComplete / StageAllComplete read 'edit' in the statement as "
         "the edit git performs for the same command; the specification's version of every action is validated against git's own commands in phase 0 of every run",
